@@ -1,5 +1,8 @@
 import Props.C16
-#print axioms C16.grey_all_nofma
-#print axioms C16.grey_all_fma
 #print axioms C16.grey_axis
 #print axioms C16.decodeGrey_is_decode
+#print axioms C16.xyb_grey
+#print axioms C16.hsl_grey
+#print axioms C16.xyb_build_indep
+#print axioms C16.prim_grey
+#print axioms C16.curve_anchors
